@@ -1,4 +1,4 @@
-package main
+package c15lib
 
 import (
 	"math/big"
